@@ -73,6 +73,8 @@ structure Variant where
   /-- may return the out-of-range resource index `len(resourcesData)` ("no resource" by the interface's doc) -/
   oob : Bool
   canCut : Bool := true
+  /-- the CodecWriter's `Close` fails -/
+  failClose : Bool := false
 
 def resIndex (v : Variant) (b : UInt8) (nres : Nat) : Int :=
   let m := if v.oob then nres + 2 else nres + 1
@@ -102,6 +104,7 @@ def cut (v : Variant) (codec : Nat) (encoded : Bytes) (maxEncodedLen : Nat) : Ex
 def wrapResource (raw : Bytes) : Except Err Bytes := .ok (u32le raw.length ++ raw)
 
 def codecW (v : Variant) : CodecW :=
-  { compress := compress v, canCut := v.canCut, cut := cut v, wrapResource := wrapResource, close := none }
+  { compress := compress v, canCut := v.canCut, cut := cut v, wrapResource := wrapResource,
+    close := if v.failClose then some (.codec 3) else none }
 
 end WuffsVerif.Rac.HCodec
